@@ -19,6 +19,7 @@ CLAIMS = {
  "C05": ("chunk-level refinement of slice and take to list operations proved for all chunks, windows and index lists; correspondence: getitem/take/setitem/concat/dropna/pickle/copy/equals vs model and vs Python list semantics, frame row movement, in-place histories, exhaustive slices (thorough)", "§7 C05"),
  "C06": ("frame condition of set_list_field/set_flat_field/fill_field_lists proved for every column, field and value: same chunks, same validity (missing rows, row count), every other field the identical list array, edited field = window of the supplied lists; correspondence: accessor and NestedFrame['n.f']= over layouts × value forms", "§7 C06"),
  "C07": ("filter-and-repack pipeline of query proved for every number of rows, row lengths and condition outcomes (query_filters_inside_rows: packed rows = non-empty filtered rows in order, packed index = rows keeping a record, row i keeps exactly its satisfying records in order; same offsets for every field; mixed layers refused); correspondence: expressions from the grammar (comparisons, arithmetic, and/or/not, quoted names) x layouts x label patterns vs model and per-row spec, base-layer queries vs pandas, query_flat", "§7 C07"),
+ "C08": ("PARTIAL: the column bookkeeping of read_parquet is proved (full read returns every column in file order with struct-of-lists columns cast to nested unless rejected; whole-column selections return exactly the requested columns in order; the fields of one nest are regrouped into that nest with exactly the requested fields in requested order; a nest requested both in full and by a field is refused); the parquet codec and pyarrow's column projection are parameters with assumed laws, exercised on real files: writer configurations (row-group size, compression, dictionary, path vs file-like), non-default index, plain-pyarrow reader (no metadata, struct of equal-length lists, same content), foreign files written by pyarrow, random and directed column/field selections vs the Lean model and vs the full read", "§7 C08"),
  "C09": ("pack groups by label keeping original relative order (stable sort + packer proved end to end for int/str labels: packed_row_holds_records_of_label, distinct packed labels, absent labels), join lookup refines take; correspondence: add_nested x {left,right,inner,outer} x label patterns vs model (pandas join) and per-row spec, on=column, from_flat, from_lists/nest_lists, frame['new.f']=", "§7 C09"),
  "C10": ("reduce hands row i its own list (iter_field_list_is_rows_own_list, any offsets/buffers), one call per row with every requested column (reduce_calls_shape); correspondence: recording callback x column selections x extra args x return shapes, count_nested", "§7 C10"),
  "C11": ("records stay in their rows and move as a whole for ANY comparator (sort_keeps_records_in_rows via mergeSort_perm), sorted ordinals are non-decreasing and a table sorted by ordinal packs row by row into its own records (sorted_table_packs_by_ordinal), positions ordered by the comparator; correspondence: model (stable lexsort, NaN above numbers) vs code, relation oracle in Lean (per-row permutation + sortedness)", "§7 C11"),
@@ -28,6 +29,7 @@ CLAIMS = {
  "C15": ("sharing model (array objects = heap cells; results/deep copies/in-place frame operations only allocate, in-place array operations write one cell): an in-place write is visible only through objects referring to that cell, allocation leaves every other object unchanged, a deep copy shares no cell, noninterference over histories of any length by induction with the allocator invariant; correspondence: families {original, deep copy, row slice, column selection, extracted series, argument table and series, results} under random interleavings of 16 pure, 3 in-place-array, 6 in-place-frame operations and in-place edits of the argument table, full snapshots of every live object after every step, the set of objects that may change predicted from object identity (`is`)", "§7 C15"),
  "C16": ("state-machine model of the only hidden state (the _aliases attribute and the eval/query protocol around it, as after the fix): invariant 'attribute clear after every call, successful or raising' by induction over histories, a raising call and a non-inplace call leave the frame exactly as it was, history_independence for prefixes of any length; correspondence: 31 failing/read-only operations, all single prefixes + sampled pairs (all pairs and triples in thorough) followed by a battery of 18 probes on the same object and on a copy, each compared with the same probe on a freshly built equal frame", "§7 C16"),
  "C17": ("the string name parses back to the same dtype (name_parses_back: any number/order of fields, separator-free distinct names, alias-sound types), names are injective, parametric types are refused never mis-parsed (unknown_type_refused, field_parse_sound), declared dtype after a field edit = type of the stored data; correspondence: every alias pyarrow accepts exhaustively (enumerated at run time), parametric instantiations, random field lists/orders, truncated/permuted/mutated strings vs the Lean parser, identity/hash/pickle/ArrowDtype round trips, declared-vs-stored dtype after edit histories", "§7 C17"),
+ "C18": ("PARTIAL: closure model (class of the result and kind of every column under the operations of the property): every rule maps closed frames to closed frames and chains of any depth stay closed (closure_step, closure_chain by induction), the listing of nested columns is exactly the columns of nested kind; the per-operation rules themselves are pandas runtime behaviour (constructor propagation, extension-dtype preservation) which a theorem cannot exhibit — they are validated on every step of every chain by the correspondence: 30 operations incl. empty results (query matching nothing, iloc[0:0]), concat, join, set/reset index, pickle, parquet; all single steps, sampled pairs (all pairs in thorough) and random chains of depth 3-6 from random layouts; after every step class, dtypes, nested_columns, all_columns vs the model and a usability probe (dotted access, query, field assignment on a copy)", "§7 C18"),
  "C19": ("same records per row in both orientations proved for validated chunks whose fields are slices of different buffers (rebased_window_same_extents, list_struct_same_records); correspondence: every export/import door and explicit type requests on all layouts", "§7 C19"),
 }
 TECH = "Lean 4 proof (refinement/invariant theorems over an executable model) + differential correspondence check model-vs-code with spec oracle"
